@@ -4,6 +4,7 @@ mod c02;
 mod c03;
 mod c04;
 mod c05;
+mod c06;
 mod hist;
 mod world;
 
@@ -32,6 +33,11 @@ fn main() {
         "C05" => {
             let mut r = Runner::from_env("C05", "exploration");
             c05::run(&mut r);
+            r.finish();
+        }
+        "C06" => {
+            let mut r = Runner::from_env("C06", "exploration");
+            c06::run(&mut r);
             r.finish();
         }
         "C02" => {
